@@ -210,13 +210,21 @@ fn swap_safe_programs() -> Vec<(String, String)> {
 
 pub fn run(args: &Args, out: &mut Out) {
     let progs = swap_safe_programs();
-    let total = args.cases(120, 4000) + progs.len();
+    // the enumerated family "every state word is audible" (every third member in the quick tier)
+    let fam: Vec<Case> = super::progcase::family_cases().into_iter().enumerate().filter(|(i, _)| args.thorough() || i % 3 == (args.seed % 3) as usize).map(|(_, c)| c).collect();
+    let ngen = args.cases(120, 4000) + progs.len();
+    let total = ngen + fam.len();
     let exec = exec_with(args);
     drive(
         args,
         out,
         total,
         |idx, rng| {
+            if idx >= ngen {
+                let mut c = fam.get(idx - ngen).cloned()?;
+                c.input_seed = rng.next();
+                return Some(c);
+            }
             if idx < progs.len() {
                 return Some(Case {
                     src: progs[idx].1.clone(),
